@@ -7,6 +7,8 @@ import time
 
 from sim import core
 
+PYWARN = 'error,ignore::DeprecationWarning'
+
 SPEC_OF = {
     'C06': 'sim.check_a', 'C07': 'sim.check_a', 'C08': 'sim.check_a',
     'C09': 'sim.check_a', 'C20': 'sim.check_a',
@@ -60,6 +62,10 @@ def do_replay(check, path):
         os.execve(sys.executable, [sys.executable] + sys.argv, env)
     if body.get('pyopt') and not sys.flags.optimize:
         env = dict(os.environ, PYTHONOPTIMIZE='1')
+        os.execve(sys.executable, [sys.executable] + sys.argv, env)
+    if body.get('pywarn') and \
+            os.environ.get('PYTHONWARNINGS') != body['pywarn']:
+        env = dict(os.environ, PYTHONWARNINGS=body['pywarn'])
         os.execve(sys.executable, [sys.executable] + sys.argv, env)
     res = mod.execute(check, trace, True)
     v = res['violation']
@@ -265,7 +271,13 @@ def main(argv):
         import shutil
         main_digests = dict(d.split('=') for d in
                             agg.extra.get('digests', ()))
-        configs = [('pyopt', '1', {'PYTHONOPTIMIZE': '1'}, 0.12)]
+        configs = [('pyopt', '1', {'PYTHONOPTIMIZE': '1'}, 0.12),
+                   # warnings promoted to errors (-W error), except the
+                   # DeprecationWarning family, which the pinned library
+                   # issues itself (Basic.RecoverAsync) and Python ignores
+                   # by default: a warning added on a codec path must not
+                   # turn into an exception of a foreign type there.
+                   ('pywarn', PYWARN, {'PYTHONWARNINGS': PYWARN}, 0.08)]
         if check == 'C12':
             derived = str(core.run_seed(check, seed, 'hashseed', 0) %
                           4000000000)
@@ -311,6 +323,7 @@ def main(argv):
                             lines.extend(out_lines[i:i + 3])
                             lines.append('  (found under %s=%s)' % (
                                 'python -O, PYTHONOPTIMIZE' if kind == 'pyopt'
+                                else 'PYTHONWARNINGS' if kind == 'pywarn'
                                 else 'PYTHONHASHSEED', val))
                             reported.append({kind: val, 'line': ln,
                                              'known': False})
